@@ -2,7 +2,7 @@
     KeyIDs.  Only property theorems here, each closed by [exact <lemma>] and
     followed by [Print Assumptions]. The model is [Model.KeyId] over the tables
     regenerated from keyid/keyid.go ([Generated.KeyIdGen]). *)
-From Verif Require Import Lib.Base Lib.Json Generated.KeyIdGen Model.KeyId Proofs.KeyIdProofs Generated.KeyIdFnGen Proofs.KeyIdFnProofs.
+From Verif Require Import Lib.Base Lib.Json Generated.KeyIdGen Model.KeyId Proofs.KeyIdProofs Lib.JsonText Model.KeyIdText Proofs.JsonTextProofs Proofs.KeyIdTextProofs Generated.KeyIdFnGen Proofs.KeyIdFnProofs.
 
 (** The code's required-field table and version table are exactly the ones the
     property speaks about (re-checked against the regenerated tables). *)
@@ -73,4 +73,33 @@ Example c05_ex_refused :
   is_ok (marshal (mkKeyID None [] [] [] [] true false true false 0 1 1)) = false /\
   is_ok (marshal (mkKeyID None [] [] [] [] false false false false 0 1 2)) = false /\
   is_ok (unmarshal (Some (JObj [(tx "ver", JNum (JInt false 1))]))) = false.
+Proof. vm_compute. repeat split; reflexivity. Qed.
+
+(** ** The text level
+
+    [print] is the output language of Go's encoder (json.Marshal), [parse] the
+    JSON grammar as Go's decoder reads it (Lib/JsonText.v); both are compared
+    with encoding/json on every text of every run (cases CPrint / CText). *)
+
+(** Parsing a printed tree gives the tree back - for every tree whose strings
+    are Unicode scalar values and whose numbers are integers, of any size and
+    nesting. *)
+Theorem c05_json_text_roundtrip : forall t, wf t = true -> parse (print t) = Some t.
+Proof. exact parse_print. Qed.
+Print Assumptions c05_json_text_roundtrip.
+
+(** The KeyId TEXT a certificate carries decodes to the KeyID it was made from:
+    for every Go-representable KeyID whose strings are text. *)
+Theorem c05_text_roundtrip : forall k s,
+  in_range k = true -> text_ok k = true -> marshal_text k = Ok s -> unmarshal_text s = Ok k.
+Proof. exact text_roundtrip. Qed.
+Print Assumptions c05_text_roundtrip.
+
+Example c05_ex_text :
+  let k := mkKeyID (Some [tx "al<i>ce"; [233; 8232; 128512]%N]) (tx "t\1") (tx "u") (tx "1.2.3.4") [34; 10; 7]%N
+                   false true false false 0%Z 2%Z 1%N in
+  match marshal_text k with
+  | Ok s => unmarshal_text s = Ok k /\ text_ok k = true /\ in_range k = true
+  | Err _ => False
+  end.
 Proof. vm_compute. repeat split; reflexivity. Qed.
